@@ -1,0 +1,48 @@
+//go:build verif
+
+package mode
+
+// Contracts for the deductive checker in /verif (comment-only file; adds no code).
+//
+// pickAction: among the rules that accept in a DFA state, the one declared
+// earliest wins; rules of different files are a reported conflict.
+//
+//@ pure func cand(st *dfa.State, k int) bool = typeis(st.NFAStates[k].Data, *Actions)
+//@ pure func act(st *dfa.State, k int) *Actions = unbox(st.NFAStates[k].Data, *Actions)
+//@ pure func inRange(st *dfa.State, k int) bool = 0 <= k && k < len(st.NFAStates)
+//
+//@ func ModeBuilder.pickAction$1
+//@   requires !isnil(errs) && !isnil(a1) && !isnil(a2)
+//@   ensures errs.hasErrors
+//@   modifies errs.hasErrors
+//
+//@ func ModeBuilder.pickAction
+//@   requires !isnil(state) && !isnil(errs) && !isnil(fset)
+//@   requires forall k int :: {state.NFAStates[k]} inRange(state, k) ==> !isnil(state.NFAStates[k])
+//@   requires forall k int :: {state.NFAStates[k]} inRange(state, k) && cand(state, k) ==> !isnil(act(state, k)) && len(act(state, k).Actions) > 0
+//   no accepting rule: no action, no diagnostic
+//@   ensures (forall k int :: inRange(state, k) ==> !cand(state, k)) ==> isnil(result) && errs.hasErrors == old(errs.hasErrors)
+//   the winner is one of the candidates, is the earliest declared, and every candidate is in its file
+//@   ensures !isnil(result) ==> exists k int :: inRange(state, k) && cand(state, k) && result == act(state, k)
+//@   ensures !isnil(result) ==> forall k int :: {state.NFAStates[k]} inRange(state, k) && cand(state, k) ==> result.Pos <= act(state, k).Pos && fset.File(act(state, k).Pos) == fset.File(result.Pos)
+//@   ensures !isnil(result) ==> errs.hasErrors == old(errs.hasErrors)
+//   candidates but no winner: a conflict was reported
+//@   ensures (isnil(result) && exists k int :: inRange(state, k) && cand(state, k)) ==> errs.hasErrors
+//   candidates from two files are always a conflict
+//@   ensures (exists j, k int :: inRange(state, j) && cand(state, j) && inRange(state, k) && cand(state, k) && fset.File(act(state, j).Pos) != fset.File(act(state, k).Pos)) ==> isnil(result)
+//@   modifies errs.hasErrors
+//@   let n = len(state.NFAStates)
+//@   loop 0 invariant -1 <= rangeindex && (rangeindex < n || (n == 0 && rangeindex == -1)) && state == old(state) && errs == old(errs) && fset == old(fset)
+//@   loop 0 invariant errs.hasErrors == old(errs.hasErrors) && unchangedOld(fields(dfa.State)) && unchangedOld(fields(nfa.State)) && unchangedOld(fields(Actions)) && unchangedOld(elems(*nfa.State)) && unchangedOld(elems(Action))
+//@   loop 0 invariant (cap(actionSet) == 0 || fresh(actionSet)) && unchangedOld(elems(*Actions))
+//@   loop 0 invariant forall j int :: {actionSet[j]} 0 <= j && j < len(actionSet) ==> !isnil(actionSet[j])
+//@   loop 0 invariant forall j int :: {actionSet[j]} 0 <= j && j < len(actionSet) ==> exists k int :: 0 <= k && k <= rangeindex && cand(state, k) && actionSet[j] == act(state, k)
+//@   loop 0 invariant forall k int :: {state.NFAStates[k]} 0 <= k && k <= rangeindex && cand(state, k) ==> exists j int :: 0 <= j && j < len(actionSet) && actionSet[j] == act(state, k)
+//@   loop 0 decreases n - rangeindex
+//@   loop 1 invariant 1 <= i && i <= len(actionSet) && state == old(state) && errs == old(errs) && fset == old(fset)
+//@   loop 1 invariant errs.hasErrors == old(errs.hasErrors) && unchangedOld(fields(dfa.State)) && unchangedOld(fields(nfa.State)) && unchangedOld(fields(Actions)) && unchangedOld(elems(*nfa.State)) && unchangedOld(elems(Action))
+//@   loop 1 invariant forall j int :: {actionSet[j]} 0 <= j && j < len(actionSet) ==> actionSet[j] == pre(actionSet[j]) && !isnil(actionSet[j])
+//@   loop 1 invariant unchangedOld(elems(*Actions)) && !isnil(winner)
+//@   loop 1 invariant exists j int :: 0 <= j && j < i && winner == actionSet[j]
+//@   loop 1 invariant forall j int :: {actionSet[j]} 0 <= j && j < i ==> winner.Pos <= actionSet[j].Pos && fset.File(actionSet[j].Pos) == fset.File(winner.Pos)
+//@   loop 1 decreases len(actionSet) - i
